@@ -1,11 +1,11 @@
 (** Property C04 - the DBC parser reads back every well-formed definition faithfully, with positions.
     Only theorem statements, each closed by [exact]. Model: Dbc/Scanner.v (text/scanner subset),
     Dbc/Parser.v (parser.go, def.go), Dbc/DecFloat.v (strconv). [parse_bytes il id src] is
-    NewParser(src).Parse() together with Defs() after the fixes F8, F9, F11; [parse_bytes_old] is the code
-    as it was. [il], [id] = unicode.IsLetter / unicode.IsDigit on runes >= 128 (arbitrary).
+    NewParser(src).Parse() together with Defs() after the fixes F8, F9, F11, F12; [parse_bytes_old] is the code
+    as it was before F8, F9, F11 and [p_int_old] / [int_of_token_old] is Parser.int as it was before F12. [il], [id] = unicode.IsLetter / unicode.IsDigit on runes >= 128 (arbitrary).
     Source AST, printer, denotation and well-formedness: Dbc/Printer.v. *)
 From Coq Require Import ZArith List String.
-From CanVerif Require Import Dbc.Ast Dbc.Scanner Dbc.Parser Dbc.Printer Dbc.Witness Dbc.RoundTrip.
+From CanVerif Require Import Base.Dec Dbc.Ast Dbc.Scanner Dbc.DecFloat Dbc.Parser Dbc.Printer Dbc.Witness Dbc.IntConv Dbc.RoundTrip.
 Import ListNotations.
 Open Scope Z_scope.
 
@@ -40,8 +40,13 @@ Open Scope Z_scope.
      NS_ with its symbol list ("NS_ :" and one line LF TAB symbol per symbol);
      unknown lines (identifier / decimal number / punctuation tokens).
    Numbers read by ParseFloat are decimal literals  [-] digits [. digits] [(e|E) [+|-] digits]  (no
-   leading zeros; value = the model's correctly rounded conversion of the literal, for INT
-   attributes followed by the model of int64(f); sign applied afterwards as the parser does);
+   leading zeros; value = the model's correctly rounded conversion of the literal; sign applied
+   afterwards as the parser does).  INT / HEX attribute ranges, defaults and values (Parser.int): a
+   literal without fraction and exponent denotes ITS VALUE, for every int64 (any number of digits;
+   saturated at the int64 limits beyond them) - [num_int] of Dbc/Printer.v, C04_int_field_is_written_value
+   below; only a literal WITH fraction or exponent is read through float64 (correctly rounded, then
+   the model of int64(f) with clamps).  The value of a VAL_ / VAL_TABLE_ entry is a float64 field in
+   the Go structure itself (p.float()), so integers above 2^53 are rounded there by design;
    unsigned integers < 2^64 without leading zeros; strings over printable ASCII including the
    escaped quote and backslash-character pairs (kept verbatim); the text of CM_ may in addition contain
    line ends (each read as one space; the following definitions are then positioned on the later
@@ -90,6 +95,57 @@ Theorem C04_bit_timing_refuted : forall il id,
   parse_bytes_old il id (txt ("BS_: 500 : 1 , 2" ++ LF)) = Err (at_ 1 10 9) ESyntax [DBitTiming (at_ 1 1 0) 500 0 0]
   /\ parse_bytes il id (txt ("BS_: 500 : 1 , 2" ++ LF)) = Ok [DBitTiming (at_ 1 1 0) 500 1 2].
 Proof. exact (fun il id => conj (f9_old il id) (f9_fixed il id)). Qed.
+
+(** ------------------------------------------------------------------ integers (F12)
+    Parser.int after the fix: a scanner.Int token made of decimal digits - any length, leading zeros
+    included - is converted to its base-ten value with the sign applied, saturated at the int64
+    limits ([int_of_token is_int neg txt] = the conversion of Dbc/DecFloat.v; [uint_value] = the value
+    of the digit string; [sat64 z] = max (-2^63) (min (2^63 - 1) z)) ... *)
+Theorem C04_int_conversion_exact : forall (neg : bool) (ds : list Z),
+  ds <> [] -> Forall (fun c => is_decimal c = true) ds ->
+  int_of_token true neg ds = Some (sat64 (if neg then - uint_value ds else uint_value ds)).
+Proof. exact (fun neg ds H1 H2 => int_of_token_digits neg ds (conj H1 H2)). Qed.
+Print Assumptions C04_int_conversion_exact.
+
+(** ... so every int64 written the way strconv.FormatInt writes it ('-' is a token of its own, then
+    [itoa] of the magnitude, Base/Dec.v) is read back exactly, MinInt64 and MaxInt64 included *)
+Theorem C04_int_conversion_every_int64 : forall z : Z, - 2 ^ 63 <= z < 2 ^ 63 ->
+  int_of_token true (z <? 0) (Dec.itoa (Z.abs z)) = Some z.
+Proof. exact int_of_token_itoa. Qed.
+Print Assumptions C04_int_conversion_every_int64.
+
+(** the INT / HEX fields of [elaborate] in C04_parse_print_partial ([num_int]) are the written value
+    for every decimal integer inside int64 - no bound at 2^53 *)
+Theorem C04_int_field_is_written_value : forall n : snum,
+  n_frac n = None -> n_exp n = None ->
+  - 2 ^ 63 <= (if n_neg n then - uint_value (n_digits n) else uint_value (n_digits n)) < 2 ^ 63 ->
+  num_int n = (if n_neg n then - uint_value (n_digits n) else uint_value (n_digits n)).
+Proof. exact num_int_written. Qed.
+Print Assumptions C04_int_field_is_written_value.
+
+(** regression witness of F12: Parser.int as it was converted every token through float64 and tested
+    the upper clamp with '>': 9223372036854775807 rounds to 2^63, is not > float64(MaxInt64) = 2^63,
+    and int64(2^63) is MinInt64 on amd64; 9007199254740993 = 2^53 + 1 loses its last bit.  The same
+    on a parser state: [p_int_old] on the text after `BA_ "GenSigStartValue" SG_ 1 S`; the fixed
+    parser reads both as written *)
+Theorem C04_int_old_refuted : forall il id,
+  int_of_token_old false (txt "9223372036854775807") = Some (- 2 ^ 63)
+  /\ int_of_token_old false (txt "9007199254740993") = Some (2 ^ 53)
+  /\ int_of_token true false (txt "9223372036854775807") = Some (2 ^ 63 - 1)
+  /\ int_of_token true false (txt "9007199254740993") = Some (2 ^ 53 + 1)
+  /\ (exists st, p_int_old il id 40 (p_init (txt " 9223372036854775807;")) = POk (- 2 ^ 63) st)
+  /\ (exists st, p_int_old il id 40 (p_init (txt " -9007199254740993;")) = POk (- 2 ^ 53) st)
+  /\ (exists a v1 v2,
+        parse_bytes il id (txt ("BA_DEF_ SG_ ""GenSigStartValue"" INT 0 0;" ++ LF
+                                ++ "BA_ ""GenSigStartValue"" SG_ 1 S 9223372036854775807;" ++ LF
+                                ++ "BA_ ""GenSigStartValue"" SG_ 1 S -9007199254740993;" ++ LF))
+        = Ok [DAttribute a; DAttributeValue v1; DAttributeValue v2]
+        /\ av_int v1 = 2 ^ 63 - 1 /\ av_int v2 = - (2 ^ 53 + 1)).
+Proof.
+  exact (fun il id => conj int_of_token_old_maxint64 (conj int_of_token_old_2p53_1
+          (conj (proj1 int_of_token_new_witnesses) (conj (proj2 int_of_token_new_witnesses)
+          (conj (proj1 (f12_old il id)) (conj (proj1 (proj2 (f12_old il id))) (f12_fixed il id))))))).
+Qed.
 
 (** non-vacuity: a source file with all covered kinds satisfies the hypothesis of the round trip
     (VERSION "1.0" / BS_: 500 : 1 , 2 / BU_: ECU1 ECU2 / BO_ 2566844926 Msg : 8 ECU1 with two lines
